@@ -744,7 +744,13 @@ func ruleC07SEID(w *World, r *Report) {
 		r.bad("R07.5", fn, "the session is created with the candidate", w.Pos(f.Pos()), "localSEID is not set")
 		return
 	}
-	r.check(sessStore.Val == ssa.Value(cand), "R07.5", fn, "the session's local SEID is the tested candidate", w.Pos(sessStore.Pos()), "same value", "localSEID is "+symOf(sessStore.Val).String()+", not the candidate that was tested")
+	// (the candidate may be carried out of the search loop in a variable: what counts is what that
+	// variable can hold where the session is built)
+	isCand := true
+	for _, v := range valuesAt(sessStore.Val, sessStore) {
+		isCand = isCand && v == ssa.Value(cand)
+	}
+	r.check(isCand, "R07.5", fn, "the session's local SEID is the tested candidate", w.Pos(sessStore.Pos()), "same value", "localSEID is "+symOf(sessStore.Val).String()+", not the candidate that was tested")
 	// guards: candidate != 0 and GetSession(candidate) not found
 	var get *ssa.Call
 	allInstrs(f, func(i ssa.Instruction) {
@@ -779,6 +785,23 @@ func ruleC07SEID(w *World, r *Report) {
 			_, op, y, ok := edgeFact(b, sc)
 			if ok && (op == token.LSS || op == token.GEQ) && strings.HasSuffix(symOf(y).String(), "maxRetries") {
 				bounded = true
+			}
+			// the same budget counted the other way: the tries left start at maxRetries, every round of
+			// the loop that draws takes some away, and the loop goes on only while some are left
+			if ok && naturalLoop(b)[cand.Block()] && b.Dominates(cand.Block()) {
+				x, op, y := edgeFactArgs(b, sc)
+				if _, isK := constInt(x); isK {
+					x, op, y = y, flipOp(op), x
+				}
+				k, isK := constInt(y)
+				stays := naturalLoop(b)[sc] && sc != b
+				switch {
+				case !isK || !countsDownFrom(x, b, "maxRetries"):
+				case stays && (op == token.GTR && k >= 0 || op == token.GEQ && k >= 1):
+					bounded = true
+				case !stays && (op == token.LEQ && k >= 0 || op == token.LSS && k >= 1):
+					bounded = true
+				}
 			}
 		}
 	}
@@ -831,6 +854,36 @@ func ruleC07SEID(w *World, r *Report) {
 		}
 	})
 	r.floor("R07.5 store writes", n, 1)
+}
+
+func edgeFactArgs(a, b *ssa.BasicBlock) (ssa.Value, token.Token, ssa.Value) {
+	x, op, y, _ := edgeFact(a, b)
+	return x, op, y
+}
+
+// countsDownFrom: v is the counter of the loop headed by hdr that starts (on every way in from outside
+// the loop) at a value named by suffix and is made smaller by a positive constant on every way round.
+func countsDownFrom(v ssa.Value, hdr *ssa.BasicBlock, suffix string) bool {
+	phi, ok := v.(*ssa.Phi)
+	if !ok || phi.Block() != hdr {
+		return false
+	}
+	starts, steps := 0, 0
+	for k, e := range phi.Edges {
+		if hdr.Dominates(hdr.Preds[k]) { // back edge
+			root, c := rootOffset(e)
+			if root != ssa.Value(phi) || c >= 0 {
+				return false
+			}
+			steps++
+			continue
+		}
+		if !strings.HasSuffix(symOf(e).String(), suffix) {
+			return false
+		}
+		starts++
+	}
+	return starts > 0 && steps > 0
 }
 
 func ruleC07Reported(w *World, r *Report, alloc *ssa.Function) {
